@@ -1,4 +1,5 @@
 pub mod data;
 pub mod lin;
 pub mod model;
+pub mod mutate;
 pub mod text;
